@@ -189,7 +189,7 @@ func sampleMulti(w *World) func() any {
 const multiGen = "interleaved histories on 2-4 ledgers — up to three sharing bucket `shared`, created over time, plus one alone in bucket `solo` — with overlapping accounts, references and metadata; controllers are kept across ledger creations so that a store opened while alone in its bucket is used after another ledger joins; real system controller + storage driver + ledger stores over pgsim"
 
 func TestC19(t *testing.T) {
-	st := stats.New("C19", "exploration", multiGen+"; after every step a drawn read of a drawn ledger, and at the end every read of every ledger (transactions, accounts+volumes, volumes, aggregated balances, logs, with PIT when available) is compared with that ledger's own reference model; non-trivial = >= 3 ledgers with >= 1 joining the shared bucket after writes, and >= 4 commits; distinct = by operation histories", assumePgsim)
+	st := stats.New("C19", "exploration", multiGen+"; after every step a drawn read of a drawn ledger, and at the end every read of every ledger (transactions, accounts+volumes, volumes, aggregated balances, logs, with PIT when available) is compared with that ledger's own reference model; in half of the cases the shared bucket is then soft-deleted, a new ledger is created in it, written and read (fresh and re-opened controller), and after an optional restore every ledger of the bucket is read again; non-trivial = >= 3 ledgers with >= 1 joining the shared bucket after writes, and >= 4 commits; distinct = by operation histories", assumePgsim)
 	defer st.Write(t)
 	n := stats.N(400, 900)
 	st.Set("requested_checks", n)
@@ -197,6 +197,45 @@ func TestC19(t *testing.T) {
 		// any per-ledger read discrepancy in a multi-ledger world is an isolation failure
 		w, sum := runMulti(rt, st, nil, false)
 		defer w.Close()
+		if rapid.IntRange(0, 1).Draw(rt, "softDeletedBucket") == 0 {
+			// the shared bucket is soft-deleted (its ledgers keep their rows until a purge or a restore), a new ledger is
+			// created in it and used; the bucket is then restored and every ledger read again
+			var shared []*LState
+			for _, l := range w.L {
+				if l.Bucket == "shared" {
+					shared = append(shared, l)
+				}
+			}
+			if err := w.Env.System.DeleteBucket(w.Ctx, "shared"); err != nil {
+				w.checkErr(err)
+				w.harness("DeleteBucket(shared): %v", err)
+			}
+			late := w.AddLedger("late", "shared", shared[0].Features)
+			for i, k := 0, rapid.IntRange(1, 3).Draw(rt, "lateWrites"); i < k; i++ {
+				r := w.GenPostingsRequest(rt, late, 3)
+				r.DryRun = false
+				w.CreateTx(late, r)
+			}
+			w.FullSweep(rt, late, HistOpts{PITReads: true})
+			w.Reopen(late)
+			w.FullSweep(rt, late, HistOpts{PITReads: true})
+			if rapid.Bool().Draw(rt, "restore") {
+				if err := w.Env.System.RestoreBucket(w.Ctx, "shared"); err != nil {
+					w.checkErr(err)
+					w.harness("RestoreBucket(shared): %v", err)
+				}
+				for _, l := range append(shared, late) {
+					if rapid.Bool().Draw(rt, "reopenAfterRestore") {
+						w.Reopen(l)
+					}
+					w.FullSweep(rt, l, HistOpts{PITReads: true})
+				}
+				st.Class("bucket-soft-deleted-then-restored")
+			} else {
+				st.Class("new-ledger-in-soft-deleted-bucket")
+			}
+			sum.Key += "|soft-delete"
+		}
 		st.Case(sum.Key, sum.Ledgers >= 3 && sum.JoinedLate >= 1 && sum.Commits >= 4, sampleMulti(w))
 		st.Add("completed_checks", 1)
 	})
